@@ -55,6 +55,47 @@ pub fn on_out_of_memory(_idx: usize, _kind: AllocationError) {
 }
 pub fn on_block_for_gc(_idx: usize) {
     BLOCKED_FLAG.with(|f| f.set(f.get() + 1));
+    // a requester of the fork scenario has left the part of its MMTk call that may touch the
+    // scheduler's lock
+    IN_CALL.with(|f| {
+        if f.get() {
+            f.set(false);
+            REQUESTERS_IN_CALL.fetch_sub(1, Ordering::SeqCst);
+        }
+    });
+}
+
+// Fork scenario gate.  MMTk's fork protocol expects that nothing else talks to the scheduler
+// while the last worker exits (WorkerMonitor::on_all_workers_exited uses try_lock().unwrap(), and
+// the documentation asks for a single-threaded process at fork() time).  Requests that are already
+// pending (requester blocked in block_for_gc) when prepare_to_fork is called are legal and wanted.
+static FORKING: std::sync::atomic::AtomicBool = std::sync::atomic::AtomicBool::new(false);
+static REQUESTERS_IN_CALL: std::sync::atomic::AtomicUsize = std::sync::atomic::AtomicUsize::new(0);
+thread_local! {
+    static IN_CALL: std::cell::Cell<bool> = const { std::cell::Cell::new(false) };
+}
+
+/// Returns false when a fork cycle is in progress (the caller must not call into MMTk).
+fn requester_enter() -> bool {
+    if FORKING.load(Ordering::SeqCst) {
+        return false;
+    }
+    REQUESTERS_IN_CALL.fetch_add(1, Ordering::SeqCst);
+    if FORKING.load(Ordering::SeqCst) {
+        REQUESTERS_IN_CALL.fetch_sub(1, Ordering::SeqCst);
+        return false;
+    }
+    IN_CALL.with(|f| f.set(true));
+    true
+}
+
+fn requester_leave() {
+    IN_CALL.with(|f| {
+        if f.get() {
+            f.set(false);
+            REQUESTERS_IN_CALL.fetch_sub(1, Ordering::SeqCst);
+        }
+    });
 }
 pub fn oom_count() -> u64 {
     OOM_FLAG.with(|f| f.get())
@@ -823,10 +864,97 @@ impl Mut {
         }
     }
 
+    /// Inject user work packets that spawn PRNG fan-out trees: into the always-open bucket (they
+    /// run right away on woken workers) or into stop-the-world buckets (they run in the next GC,
+    /// children go to the same or a later stage).
+    fn op_inject_packets(&mut self) {
+        use mmtk::scheduler::WorkBucketStage as S;
+        let w = world();
+        let stages = [S::Unconstrained, S::Prepare, S::Closure, S::VMRefClosure, S::Release, S::Final];
+        let si = self.rng.usize_below(stages.len());
+        let depth = 1 + self.rng.below(3) as u8;
+        let fanout = 1 + self.rng.below(3) as u8;
+        let seed = self.rng.next();
+        let n = 1 + self.rng.usize_below(3);
+        if n == 1 {
+            memory_manager::add_work_packet(w.mmtk, stages[si], StressPacket { depth, fanout, stage: si as u8, seed });
+        } else {
+            let v: Vec<Box<dyn mmtk::scheduler::GCWork<VerifVM>>> = (0..n).map(|i| Box::new(StressPacket { depth, fanout, stage: si as u8, seed: seed ^ i as u64 }) as Box<dyn mmtk::scheduler::GCWork<VerifVM>>).collect();
+            memory_manager::add_work_packets(w.mmtk, stages[si], v);
+        }
+        with_report("C15", |r| r.count("user_packet_trees_injected", n as u64));
+    }
+
+    /// prepare_to_fork -> wait for every GC thread to return -> after_fork (no real fork() is
+    /// needed: the protocol is exit/respawn of the worker threads).
+    fn op_fork_cycle(&mut self) {
+        let w = world();
+        let n = w.cfg.workers;
+        let ret0 = w.workers_returned.load(Ordering::SeqCst);
+        // close the gate and wait until no requester is between "call entered" and "blocked for GC"
+        FORKING.store(true, Ordering::SeqCst);
+        while REQUESTERS_IN_CALL.load(Ordering::SeqCst) != 0 {
+            world::safepoint_poll();
+            std::thread::sleep(std::time::Duration::from_micros(20));
+            if w.done.load(Ordering::Relaxed) {
+                FORKING.store(false, Ordering::SeqCst);
+                return;
+            }
+        }
+        emit(world::EV_FORK_PREPARE_CALL, self.idx as u64, 0, 0);
+        w.mmtk.prepare_to_fork();
+        emit(world::EV_FORK_PREPARE_RETURN, self.idx as u64, 0, 0);
+        // Wait for the native threads to exit.  A GC requested earlier is served first and needs
+        // this mutator to park, so keep polling.
+        while w.workers_returned.load(Ordering::SeqCst) < ret0 + n {
+            world::safepoint_poll();
+            std::thread::sleep(std::time::Duration::from_micros(20));
+            if w.done.load(Ordering::Relaxed) {
+                FORKING.store(false, Ordering::SeqCst);
+                return;
+            }
+        }
+        for h in w.worker_threads.lock().unwrap().drain(..) {
+            let _ = h.join();
+        }
+        w.last_progress.fetch_add(1, Ordering::Relaxed);
+        emit(world::EV_AFTER_FORK_CALL, self.idx as u64, 0, 0);
+        w.mmtk.after_fork(world::tls_of(self.idx).0);
+        emit(world::EV_AFTER_FORK_RETURN, self.idx as u64, 0, 0);
+        FORKING.store(false, Ordering::SeqCst);
+        with_report("C16", |r| r.count("fork_cycles_by_mutator", 1));
+    }
+
+    /// The other mutators of the fork scenario: they only request collections (a VM must not
+    /// allocate between prepare_to_fork and after_fork), racing with the fork cycles.
+    fn run_gc_requester(&mut self, ops: u64) {
+        let w = world();
+        let mut n = 0;
+        while n < ops / 40 && !w.done.load(Ordering::Relaxed) {
+            n += 1;
+            w.last_progress.fetch_add(1, Ordering::Relaxed);
+            world::safepoint_poll();
+            if !requester_enter() {
+                std::thread::sleep(std::time::Duration::from_micros(50));
+                continue;
+            }
+            if self.rng.chance(1, 3) {
+                self.op_user_gc(false);
+            } else {
+                memory_manager::gc_poll(w.mmtk, world::tls_of(self.idx));
+            }
+            requester_leave();
+            std::thread::sleep(std::time::Duration::from_micros(self.rng.below(300)));
+        }
+    }
+
     /// Run `ops` operations.
     pub fn run(&mut self, ops: u64) {
         let w = world();
         let cfg = w.cfg.clone();
+        if cfg.scenario == "fork" && self.idx != 0 {
+            return self.run_gc_requester(ops);
+        }
         let live_budget = cfg.max_live_kb * 1024 / cfg.mutators.max(1);
         let scen = cfg.scenario.as_str();
         let mut n = 0u64;
@@ -858,6 +986,10 @@ impl Mut {
                         unsafe { std::ptr::write_volatile(&mut (*w.globals)[g], 0) };
                     }
                 }
+                continue;
+            }
+            if scen == "fork" && n % 150 == 0 {
+                self.op_fork_cycle();
                 continue;
             }
             let x = self.rng.below(1000);
@@ -942,7 +1074,11 @@ impl Mut {
                     }
                 }
                 950..=954 => {
-                    memory_manager::gc_poll(w.mmtk, world::tls_of(self.idx));
+                    if cfg.log_events && self.rng.chance(1, 2) {
+                        self.op_inject_packets();
+                    } else {
+                        memory_manager::gc_poll(w.mmtk, world::tls_of(self.idx));
+                    }
                 }
                 955..=957 => {
                     if !cfg.off("rebind") {
@@ -995,4 +1131,49 @@ pub fn check_alloc_result(start: usize, size: usize, align: usize, offset: usize
         }
     });
     let _ = NPINROOTS;
+}
+
+
+/// A user work packet of the scheduler stress workload: burns a little time and spawns children.
+pub struct StressPacket {
+    pub depth: u8,
+    pub fanout: u8,
+    pub stage: u8,
+    pub seed: u64,
+}
+
+pub static STRESS_PACKETS_RUN: std::sync::atomic::AtomicU64 = std::sync::atomic::AtomicU64::new(0);
+
+impl mmtk::scheduler::GCWork<VerifVM> for StressPacket {
+    fn do_work(&mut self, worker: &mut mmtk::scheduler::GCWorker<VerifVM>, _mmtk: &'static mmtk::MMTK<VerifVM>) {
+        use mmtk::scheduler::WorkBucketStage as S;
+        STRESS_PACKETS_RUN.fetch_add(1, Ordering::Relaxed);
+        let stages = [S::Unconstrained, S::Prepare, S::Closure, S::VMRefClosure, S::Release, S::Final];
+        let mut x = self.seed | 1;
+        let mut next = || {
+            x ^= x << 13;
+            x ^= x >> 7;
+            x ^= x << 17;
+            x
+        };
+        for _ in 0..(next() % 400) {
+            std::hint::spin_loop();
+        }
+        if next() % 8 == 0 {
+            std::thread::yield_now();
+        }
+        if self.depth == 0 {
+            return;
+        }
+        for _ in 0..self.fanout {
+            // children go to the same stage or a later one (never to an earlier stop-the-world stage)
+            let cs = if self.stage == 0 { 0 } else { (self.stage as usize + (next() % 2) as usize).min(stages.len() - 1) };
+            let child = StressPacket { depth: self.depth - 1, fanout: self.fanout, stage: cs as u8, seed: next() };
+            if next() % 2 == 0 {
+                worker.add_work(stages[cs], child);
+            } else {
+                worker.scheduler().work_buckets[stages[cs]].add(child);
+            }
+        }
+    }
 }
